@@ -284,6 +284,43 @@ def inline_let_closures(text, log):
 
 
 
+_CHARLIT = r"'(?:\\u\{[0-9A-Fa-f]+\}|\\.|[^'\\])'"
+def rewrite_char_set_contains(text, log, generated, tag):
+    """R18: `s.contains(&['a', 'b', ..][..])` / `s.contains(&['a', ..])` / `const N: &[char] = &['a', ..]; .. s.contains(N)` (std: true iff some
+    character of s is one of the listed ones) -> a generated membership predicate over the SAME literal list plus an external function
+    whose specification is exactly that sentence.  Verus cannot run the array-to-slice coercion in exec code."""
+    n = [0]
+    def gen(chars):
+        n[0] += 1
+        nm = '%s_%d' % (tag, n[0])
+        elems = re.findall(_CHARLIT, chars)
+        cond = ' || '.join('c == %s' % e for e in elems) or 'false'
+        generated.append("/// R18: generated from a `contains(&[char ..])` call in the extracted text (%d characters)\n"
+                         "spec fn vcharset_%s(c: char) -> bool { %s }\n"
+                         "#[verifier::external_body]\nfn vstr_contains_any_%s(s: &str) -> (r: bool)\n"
+                         "    ensures r == (exists|i: int| 0 <= i < s@.len() && vcharset_%s(#[trigger] s@[i]))\n{ unimplemented!() }" % (len(elems), nm, cond, nm, nm))
+        log.append(('R18', 'contains(&[%d chars]) -> generated membership predicate vcharset_%s' % (len(elems), nm), 1))
+        return nm
+    lst = r"&\s*\[((?:\s*" + _CHARLIT + r"\s*,?)+)\s*\]\s*(?:\[\s*\.\.\s*\])?"
+    # named constants
+    for m in list(re.finditer(r"(?:const|static|let)\s+(\w+)\s*:\s*&(?:'static\s+)?\[char\]\s*=\s*" + lst + r"\s*;", text)):
+        name = m.group(1)
+        if not re.search(r"\.contains\(\s*&?\s*" + name + r"\s*\)", text):
+            continue
+        nm = gen(m.group(2))
+        text = text.replace(m.group(0), '/* R18: %s */' % name)
+        text = re.sub(r"(\b[\w.]+?)\.contains\(\s*&?\s*" + name + r"\s*\)", lambda mm: 'vstr_contains_any_%s(%s)' % (nm, mm.group(1)), text)
+    # inline lists
+    while True:
+        m = re.search(r"(\b[\w.]+?)\.contains\(\s*" + lst + r"\s*\)", text)
+        if not m:
+            break
+        nm = gen(m.group(2))
+        text = text[:m.start()] + 'vstr_contains_any_%s(%s)' % (nm, m.group(1)) + text[m.end():]
+    return text
+
+
+
 def apply_standard_rewrites(text, log):
     def r1(name, args):
         parts = split_top_commas(args)
@@ -535,6 +572,7 @@ class Unit:
                 text_body = text_body[:cm.start()] + 'vset_%s_contains(%s)' % (nm, argt) + text_body[cb + 1:]
             log.append(('R6', 'phf_set %s (%d elements) -> generated membership function' % (nm, len(elems)), 1))
         # rewrites
+        text_body = rewrite_char_set_contains(text_body, log, generated, re.sub(r'\W+', '_', path.split('::')[-1].replace('fn ', '').strip()))
         text_body = apply_standard_rewrites(text_body, log)
         for kw, arg, _ in sec.block('subst'):
             rule, rx, rp = parse_subst(arg)
